@@ -122,6 +122,9 @@ def main(argv):
             if not (rep.violations or rep.disagreements):
                 print("HARNESS-ERROR: budget used up before anything was found (%s)" % stopped)
                 return 2
+        import model as _model
+        if _model.TIMEOUTS:
+            rep.dist["model-driver-requests-abandoned-after-%ds(counted as unsupported)" % int(_model.TIMEOUT_S)] += len(_model.TIMEOUTS)
         for mm in impl.HISTORY["repeat_mismatches"][:3]:
             try:
                 rep.violate("second-call-on-the-same-object-differs", {"rule": mm["rule"], "listing": mm["listing"]},
